@@ -10,7 +10,9 @@ from tools.props import panel_common as pc
 from tools.translate import pyx
 
 TRUSTED = pc.TRUSTED_T + [
-    'Panel.calc_kG0 glue is covered by the whole-matrix oracle comparison on explored panels only',
+    'Panel.calc_kG0 glue: hand model lean/CompmechVerif/Model/PanelGlue.lean (theorems calc_kG0_dispatch, calc_kG0_eq_prestress_hessian_plate), tied to the '
+    'running _panel.py by the recorded-kernel-call correspondence of ./check C02 (tools/props/C02.py: glue_correspondence) and by the whole-matrix oracle '
+    'comparison here, both on the explored panels only',
     'fkG_num (state based, Gauss-Legendre) is not translated to Lean yet: its clauses are checked numerically against '
     'the constant-load matrix (exploration, not proof)',
 ]
